@@ -91,7 +91,7 @@ def observe():
     return obs
 
 
-@scenario("validaddr:hextype", "jasm.global_definitions.HexType.__init__", P, doc="0x prefix stripped, value = hexval of the digits")
+@scenario("validaddr:hextype", "jasm.global_definitions.HexType.__init__", ["C18", "C17"], doc="0x prefix stripped, value = hexval of the digits")
 def hextype():
     ensure()
     obs: List[Ob] = []
@@ -102,6 +102,17 @@ def hextype():
             obs.append(simple_ob(f"HexType:0x={int(w)}:p{i}:POST", "jasm.global_definitions.HexType.__init__", "POST",
                                  "HexType(s).hex = value of the hexadecimal digits of s, with or without the 0x prefix", ok, P,
                                  detail=repr(p.value), witness=str(w)))
+    # a bound that is not text (an unquoted 0x401000 loads as the integer 4198400, a missing bound as None) is rejected, never
+    # re-interpreted: the digits of str(4198400) read as hexadecimal are a different address
+    for bad in (4198400, 0, None, 1.5, ["0x10"], True):
+        try:
+            v_ = J.gd.HexType(bad).hex
+            ok, det = False, f"accepted, value {v_!r}"
+        except Exception as e:   # noqa
+            ok, det = True, type(e).__name__
+        obs.append(simple_ob(f"HexType:non-text:{bad!r}:EXC", "jasm.global_definitions.HexType.__init__", "EXC",
+                             f"HexType({bad!r}) raises (a wrongly-typed address bound is an error)", ok, ["C17", "C18"], detail=det, witness=repr(bad),
+                             replay={"kind": "call", "target": "jasm.global_definitions:HexType", "args": [bad], "expect": "<raises>"}))
     return obs
 
 
@@ -130,4 +141,25 @@ def install():
                                  f"rule {'with' if has else 'without'} valid_addr_range (previous rule {'had' if stale else 'had no'} range): observers = "
                                  f"{'[RemoveEmpty, ValidAddr(range of THIS rule)]' if has else '[RemoveEmpty]'}", ok, ["C18", "C14"],
                                  detail=repr(names), witness=repr(names)))
+    # the observer is installed for EVERY configured range: a single address (min == max, in any spelling), a huge one, bounds
+    # at 0 -- what the range object looks like (length, truthiness) never decides whether the option is honoured
+    for lo, hi in (("0x402000", "402000"), ("402000", "0x402000"), ("0", "0"), ("0x0", "0xffffffffffffffff"), ("0x00401fff", "401fff"),
+                   ("1", "2"), ("0x10", "0x1f")):
+        cfg = J.gd.JASMConfig()
+        cfg.load_config({"valid_addr_range": {"min": lo, "max": hi}})
+        mop = J.match.MasterOfPuppets.__new__(J.match.MasterOfPuppets)
+        mop.global_config = J.gd.JASMConfig()
+        try:
+            lst = mop.prepare_observers()
+            names = [type(o).__name__ for o in lst]
+            ok = names == ["RemoveEmptyInstructions", "ValidAddrObserver"]
+            if ok:
+                inst = J.gd.Instruction(addr="500000", mnemonic="call", operands=[lo[2:] if lo.startswith("0x") else lo])
+                r = lst[1].observe_instruction(inst)
+                ok = list(r.operands) == ["valid_addr"]
+        except Exception as e:   # noqa
+            names, ok = repr(e), False
+        obs.append(simple_ob(f"prepare_observers:range=[{lo},{hi}]:POST", "jasm.match.MasterOfPuppets.prepare_observers", "POST",
+                             f"range [{lo}, {hi}]: the observer is installed and tags a direct call to the lower bound", ok, ["C18"],
+                             detail=repr(names), witness=f"{lo}..{hi}"))
     return obs
